@@ -453,4 +453,53 @@ Section Evm.
     intros Hwf. unfold streamlined_encode. destruct o as [o|]; [|reflexivity].
     destruct (negb _); [reflexivity|]. apply packed_loop_no_panic. exact Hwf.
   Qed.
+  (* ---- ABI-encode-unpacked: like premium legacy, only the fee division can panic (F4) ---- *)
+  Lemma encode_padded_no_panic v t : is_panic (encode_padded v t) = false.
+  Proof.
+    unfold encode_padded. pose proof (encode_packed_no_panic v t) as H.
+    destruct (encode_packed v t); try discriminate; [|reflexivity]. destruct (32 <? length a)%nat; [reflexivity|]. destruct (v <? 0); reflexivity.
+  Qed.
+  Lemma single_dec_padded_no_panic e d : dec_wf d = true -> is_panic (single_dec_padded e d) = false.
+  Proof.
+    intros Hwf. unfold single_dec_padded. destruct (apply_mult d (mult_of e)) as [x| |s] eqn:E; cbn [bind];
+      [apply encode_padded_no_panic|reflexivity|]. exfalso. exact (apply_mult_no_panic _ _ _ Hwf E).
+  Qed.
+  Lemma abi_padded_no_panic a v : match v with Some x => EvmSpec.sval_wf x | None => true end = true -> is_panic (abi_padded a v) = false.
+  Proof.
+    intros Hwf. unfold abi_padded. destruct v as [[d|? ? ?|t i]|]; try reflexivity.
+    - destruct a as [|e [|? ?]]; try reflexivity. apply single_dec_padded_no_panic. exact Hwf.
+    - destruct a as [|e0 [|e1 [|? ?]]]; try reflexivity.
+      apply bind_no_panic; [apply encode_padded_no_panic|]. intros ts. destruct i as [d|? ? ?|? ?]; try reflexivity.
+      apply bind_no_panic; [apply single_dec_padded_no_panic; exact Hwf|reflexivity].
+  Qed.
+  Lemma encode_all_padded_no_panic abi : forall vs,
+    forallb (fun v => match v with Some x => EvmSpec.sval_wf x | None => true end) vs = true ->
+    is_panic (encode_all abi_padded abi vs) = false.
+  Proof.
+    induction abi as [|a abi IH]; intros [|v vs] Hwf; try reflexivity. cbn [forallb] in Hwf. apply andb_prop in Hwf. destruct Hwf as [Hv Hvs].
+    cbn [encode_all]. pose proof (abi_padded_no_panic a v Hv) as Ha. specialize (IH vs Hvs).
+    destruct (abi_padded a v); try discriminate.
+    - destruct (encode_all abi_padded abi vs); try discriminate; reflexivity.
+    - destruct (encode_all abi_padded abi vs); try discriminate; reflexivity.
+  Qed.
+  Theorem unpacked_panic_only_F4 o r s : values_wf r = true ->
+    unpacked_encode o r = Panic s -> exists o', o = Some o' /\ f4_region (uo_fee o') r = true.
+  Proof.
+    intros Hwf. unfold unpacked_encode, f4_region. destruct (r_specimen r); [discriminate|].
+    unfold values_wf in Hwf. destruct (r_values r) as [|v0 [|v1 rest]]; try discriminate.
+    cbn [forallb] in Hwf. apply andb_prop in Hwf. destruct Hwf as [H0 Hwf]. apply andb_prop in Hwf. destruct Hwf as [H1 Hrest].
+    destruct (extract_price v0) as [np| |] eqn:Enp; try discriminate; [|destruct v0 as [[?|? ? ?|? ?]|]; discriminate]. cbn [bind].
+    destruct (extract_price v1) as [lp| |] eqn:Elp; try discriminate; [|destruct v1 as [[?|? ? ?|? ?]|]; discriminate]. cbn [bind].
+    destruct o as [o|]; [|discriminate]. intros H. exists o. split; [reflexivity|].
+    unfold extract_timestamps in H. destruct (r_va r / 10 ^ 9 >=? max_uint32); [discriminate|].
+    destruct (r_ts r / 10 ^ 9 >? max_uint32); [discriminate|]. cbn [bind] in H.
+    cbn [firstn existsb]. rewrite (extract_price_of _ _ Enp), (extract_price_of _ _ Elp).
+    destruct (calculate_fee np (uo_fee o)) as [nf| |s1] eqn:E1; try discriminate.
+    2:{ rewrite (calculate_fee_panic _ _ _ E1). reflexivity. }
+    cbn [bind] in H. destruct (calculate_fee lp (uo_fee o)) as [lf| |s2] eqn:E2; try discriminate.
+    2:{ rewrite (calculate_fee_panic _ _ _ E2). rewrite orb_true_r. reflexivity. }
+    cbn [bind] in H. destruct ((nf <? 0) || (lf <? 0) || (max_uint192 <? nf) || (max_uint192 <? lf)); [discriminate|].
+    pose proof (encode_all_padded_no_panic (uo_abi o) rest Hrest) as Hp.
+    destruct (encode_all abi_padded (uo_abi o) rest); try discriminate.
+  Qed.
 End Evm.
